@@ -246,6 +246,10 @@ def run(chk, replay=None):
             tl = [cscd(rng, std, pk) for _ in range(rng.randrange(0, 3))]
             sl = [segment(rng, std) for _ in range(rng.randrange(0, 4))]
             inline = bytearray(rng.getrandbits(8) for _ in range(rng.choice([0, 1, 5])))
+            if i in (1, 2):
+                # LID1 has a four-byte INLINE DATA LENGTH (the third byte is needed here), LID4 a two-byte one
+                # (its largest value and one that needs both bytes)
+                inline = bytearray(cmds.pattern((65536 if i == 1 else 65539) if std == 4 else (65535 if i == 1 else 258), 7))
             if std == 4:
                 hdr = {"list_identifier": pick(rng, 255), "sequential_striped": rng.getrandbits(1), "nrcr": rng.getrandbits(1),
                        "priority": pick(rng, 7)}
